@@ -113,6 +113,41 @@ let check_C03 (fields : sexp list) : verdict * string option =
            if first <> log then
              (OracleFail (Printf.sprintf "the same byte stream delivered in another segmentation gives a different transcript\n    this:  %s\n    first: %s" log first), cross)
            else (v, cross))
+(* C11, server without certificates: the variants of a group are one client stream with and without a leading
+   SSLRequest, in several segmentations. The request is answered with the single byte 'N' and everything behind
+   it is the transcript of the stream without the request. *)
+let declined_first : (string, string) Hashtbl.t = Hashtbl.create 64
+let check_C11 (fields : sexp list) : verdict * string option =
+  if field_opt "tlsobs" fields <> None then P_c11.check fields else
+  let (v, cross) = check_with false (fun _ _ -> true) fields in
+  match v with
+  | OracleFail _ -> (v, cross)
+  | _ ->
+      let r = run_sess fields in
+      let id = !cur_id in
+      let group = (try String.sub id 0 (String.index id '.') with Not_found -> id) in
+      let is_ref = (try String.sub id (String.index id '.') (String.length id - String.index id '.') = ".v0" with Not_found -> true) in
+      let canon (l : ev list) : string =
+        let rec go acc blk = function
+          | (Out (BParamStatus _) as e) :: r -> go acc (show_ev e :: blk) r
+          | e :: r -> go (show_ev e :: (List.rev (List.sort compare blk)) @ acc) [] r
+          | [] -> List.rev ((List.rev (List.sort compare blk)) @ acc) in
+        String.concat " " (go [] [] l) in
+      (match r.impl with
+       | None -> (v, cross)
+       | Some l ->
+           let n_ok, rest = (match l with
+             | RawOut b :: tl when int_of_byte b = 78 -> (true, tl)
+             | _ -> (is_ref, l)) in
+           (* the Consume markers count client segments, not messages: they are not part of the transcript *)
+           let log = canon (List.filter (function Consume -> false | _ -> true) rest) in
+           if not n_ok then (OracleFail "an SSLRequest on a server without certificates was not answered with the single byte 'N'", cross)
+           else (match Hashtbl.find_opt declined_first group with
+             | None -> Hashtbl.replace declined_first group log; (v, cross)
+             | Some first ->
+                 if first <> log then
+                   (OracleFail (Printf.sprintf "after the refusal 'N' the plaintext the client had already sent was not served like the same stream without the SSLRequest\n    this:  %s\n    plain: %s" log first), cross)
+                 else (v, cross)))
 let check_C18 = check_with false (fun _ _ -> true)
 let check_C09 = check_with false oracle_C09
 (* C04: no crash, no hang, the connection ends (the oracle), and the log equals the model's (in particular: no callback with fabricated data) *)
